@@ -220,4 +220,158 @@ theorem C18_taglist_order_witness :
         (fun r => r.getProducts.map (·.head?)) = some [some (Str.ofString "afw"), some (Str.ofString "python")] := by
   decide
 
+/-! ## remap -/
+
+/-- **C18, remap touches exactly the entries it names (frame part).**  Whatever the rules (any number, any order,
+any flavors, overwriting or not): entries of products that no rule mentions come through `remapEntries`' loop
+untouched and in place — the result is the list filtered and rewritten by a function that is the identity on them. -/
+theorem C18_remap_exact (rules : List Rule) (fl : Str) (deps : List Dep) :
+    ∃ g : Dep → Option Dep, remapDeps (buildMapping false rules) fl deps = deps.filterMap g ∧
+      ∀ p, (∀ r ∈ rules, r.inP ≠ p.product) → g p = some p := by
+  refine ⟨_, rfl, ?_⟩
+  intro p hp
+  simp [apply_unmentioned false rules p.product p.version fl hp]
+
+theorem filterMap_id_on {α : Type} (g : α → Option α) (l : List α) (h : ∀ x ∈ l, g x = some x) : l.filterMap g = l := by
+  induction l with
+  | nil => rfl
+  | cons x r ih => rw [List.filterMap_cons, h x (by simp), ih (fun y hy => h y (by simp [hy]))]
+
+/-- in particular a list none of whose products is mentioned is returned as it is -/
+theorem C18_remap_unmentioned_list (rules : List Rule) (fl : Str) (deps : List Dep)
+    (h : ∀ p ∈ deps, ∀ r ∈ rules, r.inP ≠ p.product) : remapDeps (buildMapping false rules) fl deps = deps := by
+  obtain ⟨g, hg, hid⟩ := C18_remap_exact rules fl deps
+  rw [hg]
+  exact filterMap_id_on g deps (fun p hp => hid p (h p hp))
+
+/-- what one rule `P:V  [Q:]W` (generic flavor) builds -/
+theorem single_rule_map (P V : Str) (outP : Option Str) (W : Str) (hW : W ≠ []) (hnr : lowerAscii W ≠ sNoreinstall) :
+    (buildMapping false [{ inP := P, inV := V, outP := outP, outV := some W, flavor := sGeneric }]).map =
+      [(sGeneric, [(P, [(V, (if falsy outP then P else outP.getD [], some W))])])] := by
+  have h1 : falsy (some W) = false := by
+    cases W with
+    | nil => exact absurd rfl hW
+    | cons _ _ => rfl
+  have h2 : (lowerAscii W == sNoreinstall) = false := by simpa using hnr
+  simp [buildMapping, addRule, Mapping.addP, h1, h2, tableAdd, assocGet, assocSet]
+
+/-- **replace / rename.**  The rule `P:V  [Q:]W` maps `P V` to `Q W` (to `P W` without `Q`) for every flavor ... -/
+theorem C18_remap_rule_names (P V : Str) (outP : Option Str) (W fl : Str) (hW : W ≠ []) (hnr : lowerAscii W ≠ sNoreinstall) :
+    (buildMapping false [{ inP := P, inV := V, outP := outP, outV := some W, flavor := sGeneric }]).apply P V fl =
+      (if falsy outP then P else outP.getD [], some W) := by
+  simp only [Mapping.apply, Mapping.apply1, single_rule_map P V outP W hW hnr]
+  by_cases hf : fl = sGeneric
+  · subst hf; simp [assocGet]
+  · simp [assocGet, hf, Ne.symm hf]
+
+/-- ... and leaves every other version of `P` alone (`V` an explicit version). -/
+theorem C18_remap_rule_other_version (P V V' : Str) (outP : Option Str) (W fl : Str) (hW : W ≠ [])
+    (hnr : lowerAscii W ≠ sNoreinstall) (hV : V' ≠ V) (hany : V ≠ sAny) :
+    (buildMapping false [{ inP := P, inV := V, outP := outP, outV := some W, flavor := sGeneric }]).apply P V' fl =
+      (P, some V') := by
+  simp only [Mapping.apply, Mapping.apply1, single_rule_map P V outP W hW hnr]
+  have h1 : ¬ V = V' := fun e => hV e.symm
+  have h2 : ¬ V = sAny := hany
+  by_cases hf : fl = sGeneric
+  · subst hf; simp [assocGet, h1, h2]
+  · simp [assocGet, hf, Ne.symm hf, h1, h2]
+
+/-- **delete (repaired D25).**  The rule `P:V None` removes `P V` ... -/
+theorem C18_remap_rule_deletes (P V fl : Str) :
+    (buildMapping false [{ inP := P, inV := V, outP := none, outV := none, flavor := sGeneric }]).apply P V fl =
+      (P, none) := by
+  have hm : (buildMapping false [{ inP := P, inV := V, outP := none, outV := none, flavor := sGeneric }]).map =
+      [(sGeneric, [(P, [(V, (P, none))])])] := by
+    simp [buildMapping, addRule, Mapping.addP, falsy, tableAdd, assocGet, assocSet]
+  simp only [Mapping.apply, Mapping.apply1, hm]
+  by_cases hf : fl = sGeneric
+  · subst hf; simp [assocGet]
+  · simp [assocGet, hf, Ne.symm hf]
+
+/-- ... and no other version of `P`. -/
+theorem C18_remap_rule_deletes_only (P V V' fl : Str) (hV : V' ≠ V) (hany : V ≠ sAny) :
+    (buildMapping false [{ inP := P, inV := V, outP := none, outV := none, flavor := sGeneric }]).apply P V' fl =
+      (P, some V') := by
+  have hm : (buildMapping false [{ inP := P, inV := V, outP := none, outV := none, flavor := sGeneric }]).map =
+      [(sGeneric, [(P, [(V, (P, none))])])] := by
+    simp [buildMapping, addRule, Mapping.addP, falsy, tableAdd, assocGet, assocSet]
+  simp only [Mapping.apply, Mapping.apply1, hm]
+  have h1 : ¬ V = V' := fun e => hV e.symm
+  by_cases hf : fl = sGeneric
+  · subst hf; simp [assocGet, h1, hany]
+  · simp [assocGet, hf, Ne.symm hf, h1, hany]
+
+/-- **D25, pinned tree (negation witness):** `eigen:1.0 None` also removed `eigen 2.0`. -/
+theorem C18_delete_pinned_witness :
+    let r : Rule := { inP := Str.ofString "eigen", inV := Str.ofString "1.0", outP := none, outV := none, flavor := sGeneric }
+    (buildMapping true [r]).apply (Str.ofString "eigen") (Str.ofString "2.0") (Str.ofString "Linux") =
+        (Str.ofString "eigen", none) ∧
+      (buildMapping false [r]).apply (Str.ofString "eigen") (Str.ofString "2.0") (Str.ofString "Linux") =
+        (Str.ofString "eigen", some (Str.ofString "2.0")) := by
+  decide
+
+/-- **D24/D26, pinned tree (negation witness):** `[create]afwdata None` in manifest.remap removed afwdata from a
+manifest remapped with `mode=None`; the repaired reader applies the line only in mode `create`. -/
+theorem C18_mode_pinned_witness :
+    let d1 : Dep := { product := Str.ofString "afwdata", version := Str.ofString "1.0", flavor := none, tablefile := none,
+                      instDir := none, distId := none }
+    let d2 : Dep := { product := Str.ofString "python", version := Str.ofString "2.6", flavor := none, tablefile := none,
+                      instDir := none, distId := none }
+    let files := [[Str.ofString "[create]afwdata              None"]]
+    remapEntriesPinned {} none files (Str.ofString "Linux") [d1, d2] = some [d2] ∧
+      remapEntries {} none files (Str.ofString "Linux") [d1, d2] = some [d1, d2] ∧
+      remapEntries {} (some (Str.ofString "create")) files (Str.ofString "Linux") [d1, d2] = some [d2] := by
+  decide
+
+/-! ## inverse -/
+
+/-- one-to-one: no two entries of the table (of one flavor) have the same image -/
+def OneToOne (m : Mapping) : Prop := (entries m.map).Pairwise (fun a b => outKey a ≠ outKey b)
+
+/-- explicit: no entry is a removal, products are named, in-versions are genuine versions -/
+def Explicit (m : Mapping) : Prop := ∀ e ∈ entries m.map, EntryOk e
+
+/-- **C18, inverse.**  For a one-to-one mapping of explicit versions `inverse()` succeeds, and for every entry
+`p:v -> q:w` of the table of a flavor `f` the inverse's table of that flavor takes `q:w` back to `p:v`
+(`apply1` is `Mapping._apply`, the look-up in one flavor's table). -/
+theorem C18_inverse (m : Mapping) (h1 : OneToOne m) (h2 : Explicit m) :
+    ∃ inv, m.inverse = some inv ∧
+      ∀ f p v q w, lk m.map f p v = some (q, some w) →
+        m.apply1 p v f = (q, some w) ∧ inv.apply1 q w f = (p, some v) := by
+  obtain ⟨inv, hfold, himg, _⟩ := fold_stepInv (entries m.map) {} h1 h2
+    (fun _ _ _ _ => by simp [lk, prodTable, assocGet])
+  refine ⟨inv, by rw [inverse_eq_fold]; exact hfold, ?_⟩
+  intro f p v q w hlk
+  refine ⟨apply1_of_lk m p v f _ hlk, ?_⟩
+  have hmem := mem_entries_of_lk m.map f p v q (some w) hlk
+  exact apply1_of_lk inv q w f _ (himg _ hmem w rfl)
+
+/-- for the `generic` table `apply` is that look-up: the inverse undoes the mapping -/
+theorem C18_inverse_generic (m : Mapping) (h1 : OneToOne m) (h2 : Explicit m) :
+    ∃ inv, m.inverse = some inv ∧
+      ∀ p v q w, lk m.map sGeneric p v = some (q, some w) →
+        m.apply p v sGeneric = (q, some w) ∧ inv.apply q w sGeneric = (p, some v) := by
+  obtain ⟨inv, hinv, h⟩ := C18_inverse m h1 h2
+  refine ⟨inv, hinv, ?_⟩
+  intro p v q w hlk
+  have := h sGeneric p v q w hlk
+  simpa [Mapping.apply] using this
+
+/-- Non-vacuity: a chain `a:1 -> b:2`, `b:2 -> c:3` and a version bump `x:1.0 -> x:2.0` is one-to-one and explicit;
+`a:1 -> c:1` together with `b:1 -> c:1` is not, and `inverse()` raises. -/
+example :
+    let m := buildMapping false [
+      { inP := [97], inV := [49], outP := some [98], outV := some [50], flavor := sGeneric },
+      { inP := [98], inV := [50], outP := some [99], outV := some [51], flavor := sGeneric },
+      { inP := [120], inV := Str.ofString "1.0", outP := none, outV := some (Str.ofString "2.0"), flavor := sGeneric }]
+    OneToOne m ∧ Explicit m ∧ lk m.map sGeneric [97] [49] = some ([98], some [50]) := by
+  unfold OneToOne Explicit
+  decide
+
+example :
+    (buildMapping false [
+      { inP := [97], inV := [49], outP := some [99], outV := some [49], flavor := sGeneric },
+      { inP := [98], inV := [49], outP := some [99], outV := some [49], flavor := sGeneric }]).inverse.isNone = true := by
+  decide
+
 end EupsModel.C18
